@@ -12,6 +12,9 @@ import ObiVerif.Lemmas.FlatSplit
 import ObiVerif.Lemmas.FastqSplit
 import ObiVerif.Lemmas.FastqGrammar
 import ObiVerif.Lemmas.Genbank
+import ObiVerif.Lemmas.ScanMax
+import ObiVerif.Lemmas.FastaContent
+import ObiVerif.Lemmas.FastqContent
 /-!
 # C01 — parsed records do not depend on chunk boundaries, transport or parser workers
 
@@ -228,15 +231,43 @@ theorem splitFlat_contract : SplitterOK splitFlat FlatCut := splitFlat_ok_cut
 theorem splitFlat_spec (buf : Seq) (h : 0 ≤ splitFlat buf) : FlatEnd (buf.take (splitFlat buf).toNat) :=
   splitFlat_cut buf h
 
-/-- **parseEmbl_append** (EMBL record locality, repaired parser): if `a` ends with an end-of-record
-line, the records of `a ++ b` parsed as one chunk are the records of `a` followed by the records of
-`b`, for every `b` (no record inherits `taxid`, `scientific_name`, `id`, definition, features or
-sequence bytes from the previous one).  `EmblChunkParser` has no error path. -/
-theorem parseEmbl_append (withFeat : Bool) (a b : Seq) (h : FlatEnd a) :
-    parseEmbl withFeat (a ++ b) = .ok (emblRecs withFeat a ++ emblRecs withFeat b) ∧
-    parseEmbl withFeat a = .ok (emblRecs withFeat a) ∧ parseEmbl withFeat b = .ok (emblRecs withFeat b) := by
-  refine ⟨?_, rfl, rfl⟩
-  rw [parseEmbl_eq, emblRecs_append withFeat h b]
+/-- **parseEmbl_append** (EMBL record locality, repaired parser, real `bufio.Scanner`): if `a` ends with an
+end-of-record line and has no line of 65536 bytes or more, then for EVERY `b` the records of `a ++ b`
+parsed as one chunk are the records of `a` followed by what the parser returns on `b` alone (no record
+inherits `taxid`, `scientific_name`, `id`, definition, features or sequence bytes from the previous one).
+`EmblChunkParser` has no error path.  `emblRecs` = the line machine on ALL the lines of the text
+(Lemmas/Embl.lean); it is what the parser returns on every text without over-long line (third clause).
+The hypothesis on `a` is needed: `embl_long_line_truncates`. -/
+theorem parseEmbl_append (withFeat : Bool) (a b : Seq) (h : FlatEnd a) (hs : shortLines maxScanTok a = true) :
+    parseEmbl withFeat a = .ok (emblRecs withFeat a) ∧
+    parseEmbl withFeat (a ++ b) =
+      (match parseEmbl withFeat b with
+       | .error e => .error e
+       | .ok rb => .ok (emblRecs withFeat a ++ rb)) ∧
+    (shortLines maxScanTok b = true → parseEmbl withFeat b = .ok (emblRecs withFeat b)) := by
+  refine ⟨parseEmbl_eq_short withFeat a hs, ?_, parseEmbl_eq_short withFeat b⟩
+  rw [parseEmbl_eq, parseEmbl_eq, parseEmblMax_append maxScanTok withFeat h hs b]
+
+/-- **embl_long_line_truncates** (what the code does with a line the scanner cannot hold, for ANY token
+limit `max`, in particular the real 65536): `pre` is empty or ends with `\n` and has no long line, `l` is a
+line of `max` bytes or more: the parser returns the records of `pre` only — the long line and every
+record after it in the same chunk are dropped without any error (`scanner.Err()` is never consulted). -/
+theorem embl_long_line_truncates (max : Nat) (withFeat : Bool) (pre l rest : Seq)
+    (hpre : pre = [] ∨ ∃ p, pre = p ++ [10]) (hshort : shortLines max pre = true)
+    (hl : ∀ c ∈ l, c ≠ 10) (hlen : max ≤ l.length) (hrest : rest = [] ∨ ∃ r, rest = 10 :: r) :
+    parseEmblMax max withFeat (pre ++ l ++ rest) = .ok (emblRecs withFeat pre) := by
+  unfold parseEmblMax emblRecs
+  rw [linesScanMax_stops max pre l rest hpre hshort hl hlen hrest]
+
+/-- such inputs are outside the property (an EMBL line has at most 80 bytes), and they are read
+chunk-dependently.  Illustration with an 8-byte token buffer, `ID   A;␊XXXXXXXX␊//␊ID   B;␊//␊`: as one
+chunk nothing is returned; cut after the first `//` line, the second chunk yields record `B`. -/
+theorem reader_embl_longline_counterexample :
+    let file : Seq := [73, 68, 32, 32, 32, 65, 59, 10, 88, 88, 88, 88, 88, 88, 88, 88, 10, 47, 47, 10, 73, 68, 32, 32, 32, 66, 59, 10, 47, 47, 10]
+    shortLines 8 file = false ∧ parseEmblMax 8 false file = .ok [] ∧
+    (chunks splitFlat 4 file).map (fun cs => cs.map (parseEmblMax 8 false)) =
+      some [.ok [], .ok [{ id := [66], defn := [], seq := [], flat := some (1, [], []) }]] := by
+  refine ⟨by decide, by rfl, by rfl⟩
 
 /-- non-vacuity: `ID   A;␊//␊` ends with an end-of-record line -/
 example : FlatEnd [73, 68, 32, 32, 32, 65, 59, 10, 47, 47, 10] := ⟨[73, 68, 32, 32, 32, 65, 59], Or.inl rfl⟩
@@ -422,11 +453,13 @@ theorem parseGenbank_append (withFeat : Bool) (a b : Seq) (h : FlatEnd a) :
         | .ok rb => .ok (ra ++ rb) := parseGenbank_append_flatEnd withFeat h b
 
 /-- **reader_independent_embl**.  `regularEol file`: every `\r` of the file is followed by `\n` (lines
-end with `\n` or `\r\n`; Lemmas/Genbank.lean).  For every such file — records or not —, every buffer
+end with `\n` or `\r\n`; Lemmas/Genbank.lean); `shortLines maxScanTok file`: no line of 65536 bytes or more
+(the `bufio.Scanner` token limit; needed: `embl_long_line_truncates`, `reader_embl_longline_counterexample`).
+For every such file — records or not —, every buffer
 size ≥ 2 and every arrival order of the parsed chunks at the re-sequencer, the released batches carry,
 in order, exactly the records of the one-chunk parse (`EmblChunkParser` has no error path). -/
 theorem reader_independent_embl (withFeat : Bool) (file : Seq) (hreg : regularEol file = true)
-    (b : Nat) (hb : 2 ≤ b) :
+    (hshort : shortLines maxScanTok file = true) (b : Nat) (hb : 2 ≤ b) :
     ∃ cs, chunks splitFlat b file = some cs ∧
       ∀ ks : List Nat, ks.Perm (List.range cs.length) →
         ∃ rss : List (List Rec),
@@ -435,11 +468,15 @@ theorem reader_independent_embl (withFeat : Bool) (file : Seq) (hreg : regularEo
   obtain ⟨cs, hcs⟩ := chunks_terminate splitFlat FlatCut splitFlat_ok_cut b hb file
   refine ⟨cs, hcs, ?_⟩
   intro ks hperm
-  have hp := pieces_parse_embl withFeat (chunks_pieces splitFlat FlatCut splitFlat_ok_cut b file cs hcs) hreg
+  have hpc := chunks_pieces splitFlat FlatCut splitFlat_ok_cut b file cs hcs
+  have hp := pieces_parse_embl withFeat hpc hreg
+  have hsc := pieces_short (max := maxScanTok) hpc hshort
   refine ⟨cs.map (emblRecs withFeat), ?_, ?_⟩
-  · rw [reseq_perm (fun k => parseEmbl withFeat (cs.getD k [])) cs.length ks hperm, range_map_getD]
-    simp [parseEmbl_eq]
-  · rw [parseEmbl_eq, hp]
+  · rw [reseq_perm (fun k => parseEmbl withFeat (cs.getD k [])) cs.length ks hperm, range_map_getD, List.map_map]
+    apply List.map_congr_left
+    intro c hc
+    exact parseEmbl_eq_short withFeat c (hsc c hc)
+  · rw [parseEmbl_eq_short withFeat file hshort, hp]
 
 /-- **reader_independent_genbank**.  For every file with regular line ends that `GenbankChunkParser`
 reads without a fatal error as one chunk, every buffer size ≥ 2 and every arrival order of the parsed
@@ -466,19 +503,24 @@ theorem reader_independent_flat (withFeat : Bool) (file : Seq) (hreg : regularEo
     (b : Nat) (hb : 2 ≤ b) :
     ∃ cs, chunks splitFlat b file = some cs ∧
       ∀ ks : List Nat, ks.Perm (List.range cs.length) →
-        (∃ rss : List (List Rec),
+        (shortLines maxScanTok file = true →
+          ∃ rss : List (List Rec),
           reseq (ks.map fun k => (k, parseEmbl withFeat (cs.getD k []))) = rss.map Except.ok ∧
           parseEmbl withFeat file = .ok rss.flatten) ∧
         (∀ rs, parseGenbank withFeat file = .ok rs →
           ∃ rss : List (List Rec),
             reseq (ks.map fun k => (k, parseGenbank withFeat (cs.getD k []))) = rss.map Except.ok ∧
             parseGenbank withFeat file = .ok rss.flatten) := by
-  obtain ⟨cs, hcs, hE⟩ := reader_independent_embl withFeat file hreg b hb
-  refine ⟨cs, hcs, fun ks hperm => ⟨hE ks hperm, fun rs hok => ?_⟩⟩
-  obtain ⟨cs', hcs', hG⟩ := reader_independent_genbank withFeat file hreg rs hok b hb
-  rw [hcs] at hcs'
-  cases hcs'
-  exact hG ks hperm
+  obtain ⟨cs, hcs⟩ := chunks_terminate splitFlat FlatCut splitFlat_ok_cut b hb file
+  refine ⟨cs, hcs, fun ks hperm => ⟨fun hshort => ?_, fun rs hok => ?_⟩⟩
+  · obtain ⟨cs', hcs', hE⟩ := reader_independent_embl withFeat file hreg hshort b hb
+    rw [hcs] at hcs'
+    cases hcs'
+    exact hE ks hperm
+  · obtain ⟨cs', hcs', hG⟩ := reader_independent_genbank withFeat file hreg rs hok b hb
+    rw [hcs] at hcs'
+    cases hcs'
+    exact hG ks hperm
 
 /-- non-vacuity: two-record files, the second record with CR LF line ends.
 GenBank `LOCUS       A␊FEATURES    ␊ORIGIN␊        1 ac␊//␊LOCUS       B␍␊…␍␊//␍␊`,
@@ -487,6 +529,7 @@ def exGenbank : Seq := [76, 79, 67, 85, 83, 32, 32, 32, 32, 32, 32, 32, 65, 10, 
 def exEmbl : Seq := [73, 68, 32, 32, 32, 65, 59, 10, 32, 32, 32, 32, 32, 97, 99, 32, 50, 10, 47, 47, 10, 73, 68, 32, 32, 32, 66, 59, 13, 10, 32, 32, 32, 32, 32, 103, 103, 32, 50, 13, 10, 47, 47, 13, 10]
 
 example : regularEol exGenbank = true ∧ regularEol exEmbl = true := by decide
+example : shortLines maxScanTok exEmbl = true := by decide
 example : parseGenbank false exGenbank =
     .ok [{ id := [65], defn := [], seq := [97, 99], flat := some (1, [], []) },
          { id := [66], defn := [], seq := [103, 103], flat := some (1, [], []) }] := by rfl
@@ -539,5 +582,107 @@ example : FaComplete exFile [mkRec [97] [120, 62, 121] [97, 99, 103, 116]] [98] 
 /-- (test on a sample) with a 5-byte buffer the file is cut into two chunks -/
 example : chunks splitFasta 5 exFile =
     some [[62, 97, 32, 120, 62, 121, 13, 10, 65, 67, 13, 10, 71, 84], [62, 98, 10, 84, 84]] := by rfl
+
+/-! ## 6. Record content = what the record's own text says (FASTA, FASTQ)
+
+`FaSrc` / `FqSrc` (Lemmas/FastaContent.lean, Lemmas/FastqContent.lean): the source text of one record —
+title, sequence line(s), `+` line, quality line — with its own lay-out (end-of-line runs, folding);
+`faFileText` / `fqFileText` render a first record, further records each preceded by a non-empty
+end-of-line run, and an end-of-line tail.  `FaSrc.record` / `FqSrc.record`: identifier = title up to
+the first blank/tab, definition = the rest after that run of blanks/tabs, sequence = the sequence
+line(s) lower-cased, qualities = quality line minus the shift. -/
+
+/-- the rendered files are exactly the files of the FASTA grammar -/
+theorem wellFormedFasta_iff_rendered (file : Seq) :
+    WellFormedFasta file ↔
+      ∃ (r0 : FaSrc) (rest : List (Seq × FaSrc)) (tail : Seq), r0.OK ∧ (∀ p ∈ rest, EolRun p.1 ∧ p.2.OK) ∧
+        AllEol tail ∧ file = faFileText r0 rest tail :=
+  ⟨wellFormed_faFileText, fun ⟨r0, rest, tail, h0, hr, ht, he⟩ => he ▸ faFileText_wellFormed r0 rest tail h0 hr ht⟩
+
+/-- **parseFasta_content**: on every well-formed FASTA file the chunk parser returns, in file order, for
+each record exactly what that record's own text says — whatever its neighbours and the lay-out -/
+theorem parseFasta_content (r0 : FaSrc) (rest : List (Seq × FaSrc)) (tail : Seq) (h0 : r0.OK)
+    (hrest : ∀ p ∈ rest, EolRun p.1 ∧ p.2.OK) (ht : AllEol tail) :
+    parseFasta (faFileText r0 rest tail) = .ok (r0.record :: rest.map (fun p => p.2.record)) :=
+  ObiVerif.Parse.parseFasta_content r0 rest tail h0 hrest ht
+
+/-- **reader_content_fasta** (the property for FASTA, end to end): for every well-formed file, every
+read-buffer size ≥ 2 and every arrival order of the parsed chunks at `SortBatches`, the released
+batches are error-free and carry, in file order, exactly the records the texts imply. -/
+theorem reader_content_fasta (r0 : FaSrc) (rest : List (Seq × FaSrc)) (tail : Seq) (h0 : r0.OK)
+    (hrest : ∀ p ∈ rest, EolRun p.1 ∧ p.2.OK) (ht : AllEol tail) (b : Nat) (hb : 2 ≤ b) :
+    ∃ cs, chunks splitFasta b (faFileText r0 rest tail) = some cs ∧
+      ∀ ks : List Nat, ks.Perm (List.range cs.length) →
+        ∃ rss : List (List Rec),
+          reseq (ks.map fun k => (k, parseFasta (cs.getD k []))) = rss.map Except.ok ∧
+          rss.flatten = r0.record :: rest.map (fun p => p.2.record) := by
+  obtain ⟨cs, hcs, hall⟩ :=
+    reader_independent_wellFormed _ (faFileText_wellFormed r0 rest tail h0 hrest ht) b hb
+  refine ⟨cs, hcs, fun ks hperm => ?_⟩
+  obtain ⟨rss, h1, h2⟩ := hall ks hperm
+  refine ⟨rss, h1, ?_⟩
+  rw [ObiVerif.Parse.parseFasta_content r0 rest tail h0 hrest ht] at h2
+  exact (Except.ok.inj h2).symm
+
+/-- non-vacuity (and a test on a sample): `>a x>y␍␊AC␍␊GT␍␊>b␉z ␊TT␊` — CR LF, folded sequence, `>` in a
+title, a tab and a trailing blank in the second title -/
+def exSrcA : FaSrc := { title := [97, 32, 120, 62, 121], eol := [13, 10], first := [65, 67], more := [([13, 10], [71, 84])] }
+def exSrcB : FaSrc := { title := [98, 9, 122, 32], eol := [10], first := [84, 84], more := [] }
+example : exSrcA.OK ∧ exSrcB.OK :=
+  ⟨⟨⟨97, _, rfl, by decide, by decide⟩, ⟨by decide, by decide⟩, ⟨by decide, by decide⟩,
+    by intro p hp; simp only [exSrcA, List.mem_cons, List.not_mem_nil, or_false] at hp; subst hp
+       exact ⟨⟨by decide, by decide⟩, ⟨by decide, by decide⟩⟩⟩,
+   ⟨⟨98, _, rfl, by decide, by decide⟩, ⟨by decide, by decide⟩, ⟨by decide, by decide⟩,
+    by intro p hp; simp [exSrcB] at hp⟩⟩
+example : faFileText exSrcA [([13, 10], exSrcB)] [10] =
+    [62, 97, 32, 120, 62, 121, 13, 10, 65, 67, 13, 10, 71, 84, 13, 10, 62, 98, 9, 122, 32, 10, 84, 84, 10] := by decide
+example : exSrcA.record = { id := [97], defn := [120, 62, 121], seq := [97, 99, 103, 116] } ∧
+    exSrcB.record = { id := [98], defn := [122, 32], seq := [116, 116] } := by decide
+
+/-- the rendered files are exactly the files of the FASTQ grammar -/
+theorem wellFormedFastq_iff_rendered (file : Seq) :
+    WellFormedFastq file ↔
+      ∃ (r0 : FqSrc) (rest : List (Seq × FqSrc)) (tail : Seq), r0.OK ∧ (∀ p ∈ rest, EolRun p.1 ∧ p.2.OK) ∧
+        AllEol tail ∧ file = fqFileText r0 rest tail :=
+  ⟨wellFormed_fqFileText, fun ⟨r0, rest, tail, h0, hr, ht, he⟩ => he ▸ fqFileText_wellFormed r0 rest tail h0 hr ht⟩
+
+/-- **parseFastq_content**: on every well-formed FASTQ file, for every quality shift, with or without
+qualities, the chunk parser returns, in file order, for each record exactly what its own text says
+(a quality line starting with `@` or `+` included) -/
+theorem parseFastq_content (sh : UInt8) (wq : Bool) (r0 : FqSrc) (rest : List (Seq × FqSrc)) (tail : Seq)
+    (h0 : r0.OK) (hrest : ∀ p ∈ rest, EolRun p.1 ∧ p.2.OK) (ht : AllEol tail) :
+    parseFastq sh wq (fqFileText r0 rest tail) = .ok (r0.record sh wq :: rest.map (fun p => p.2.record sh wq)) :=
+  ObiVerif.Parse.parseFastq_content sh wq rest r0 tail h0 hrest ht
+
+/-- **reader_content_fastq** (the property for FASTQ, end to end) -/
+theorem reader_content_fastq (sh : UInt8) (wq : Bool) (r0 : FqSrc) (rest : List (Seq × FqSrc)) (tail : Seq)
+    (h0 : r0.OK) (hrest : ∀ p ∈ rest, EolRun p.1 ∧ p.2.OK) (ht : AllEol tail) (b : Nat) (hb : 2 ≤ b) :
+    ∃ cs, chunks splitFastq b (fqFileText r0 rest tail) = some cs ∧
+      ∀ ks : List Nat, ks.Perm (List.range cs.length) →
+        ∃ rss : List (List Rec),
+          reseq (ks.map fun k => (k, parseFastq sh wq (cs.getD k []))) = rss.map Except.ok ∧
+          rss.flatten = r0.record sh wq :: rest.map (fun p => p.2.record sh wq) := by
+  obtain ⟨cs, hcs, hall⟩ :=
+    reader_independent_fastq_wellFormed sh wq _ (fqFileText_wellFormed r0 rest tail h0 hrest ht) b hb
+  refine ⟨cs, hcs, fun ks hperm => ?_⟩
+  obtain ⟨rss, h1, h2⟩ := hall ks hperm
+  refine ⟨rss, h1, ?_⟩
+  rw [ObiVerif.Parse.parseFastq_content sh wq rest r0 tail h0 hrest ht] at h2
+  exact (Except.ok.inj h2).symm
+
+/-- non-vacuity: the record `@a d␊AC␊+␊@I` (quality line starting with `@`) -/
+def exSrcQ : FqSrc := { title := [97, 32, 100], e1 := [10], sq := [65, 67], e2 := [10], plus := [], e3 := [10], qual := [64, 73] }
+example : exSrcQ.OK :=
+  ⟨⟨97, _, rfl, by decide, by decide⟩, ⟨by decide, by decide⟩, ⟨by decide, by decide⟩, ⟨by decide, by decide⟩,
+   by decide, ⟨by decide, by decide⟩, by decide, rfl⟩
+example : exSrcQ.record 33 true = { id := [97], defn := [100], seq := [97, 99], qual := some [31, 40] } := by decide
+
+/-- (tests on samples) `strings.TrimSpace` on bytes: NBSP (C2 A0), NEL (C2 85), U+2003 (E2 80 83), VT and FF are
+trimmed at both ends; a lone continuation byte A0, a lone lead byte C2, the zero-width space (E2 80 8B) and an
+overlong blank (C0 A0) are not white space and stop the trimming -/
+example : trimSpace [0xC2, 0xA0, 11, 97, 32, 98, 12, 0xE2, 0x80, 0x83, 0xC2, 0x85] = [97, 32, 98] := by decide
+example : trimSpace [0xA0, 97, 0xC2] = [0xA0, 97, 0xC2] := by decide
+example : trimSpace [32, 0xE2, 0x80, 0x8B, 97, 0xC0, 0xA0, 32] = [0xE2, 0x80, 0x8B, 97, 0xC0, 0xA0] := by decide
+example : trimSpace [32, 0xC2, 0xA0, 9] = [] := by decide
 
 end ObiVerif.Props.C01
